@@ -316,6 +316,7 @@ def bind_rule(cx, rid_bind="C08-BIND", rid_map="C08-MAP", only=None, floor=300):
     rmap = cx.rule(rid_map, "every IR class built from a user call is mapped to its host callable and every parameter of that callable (other than host-only simulation parameters) is bound into an IR field", floor=(40 if only is None else 1))
     shapes_total = 0
     undecided = []
+    pending, tasks = [], []
     for rx, arm, built in arms:
         pat = lit.try_ev(pm.consts.get(rx), pm) if rx in pm.consts else None
         if not isinstance(pat, lit.Regex):
@@ -354,52 +355,59 @@ def bind_rule(cx, rid_bind="C08-BIND", rid_map="C08-MAP", only=None, floor=300):
                 r.ok(f"{cls}: no parameters")
                 continue
             shapes = [s for s in shapes_for(params) if not host_rejects(cls, s, params)]
+            posable = tuple(p[0] for p in params if p[1] in ("pos", "posonly"))
+            order = tuple(p[0] for p in params)
             for shape in shapes:
                 shapes_total += 1
-                exp = expected(params, shape)
-                try:
-                    results = bind.explore(lambda dec: bind.ArmEval(shape, ir_fields, local_funcs, args_group, dec, module=pm, local_defs=local_defs), arm.body, {"m": UNK, "line": UNK, "raw": UNK})
-                except bind.Unsupported as e:
-                    raise AnalysisError(f"arm {rx} left the binding idiom: {e}")
-                outcomes = [(st_, nodes) for st_, nodes, _d in results]
-                built_any = False
-                bad = None
-                for st_, nodes in outcomes:
-                    for ncls, vals in nodes:
-                        if ncls != cls:
-                            continue
-                        built_any = True
-                        for f, pn in f2p.items():
-                            if pn not in exp or pn in HOST_ONLY or (cls, pn) in VALUE_LEVEL:
-                                continue
-                            got = vals.get(f, "<unset>")
-                            want = exp[pn]
-                            if got == "<unset>":
-                                # dataclass default applies
-                                continue
-                            if got is UNK or (isinstance(got, list) and f"{cls}.{f}" in VALUE_FIELDS):
-                                # (a list assembled element by element from evaluated values is value-level, not binding)
-                                undecided.append(f"{cls}.{f}")
-                                continue
-                            if isinstance(want, Tok):
-                                if got != want:
-                                    bad = (f, pn, got, want)
-                            else:
-                                if isinstance(got, Tok) or not same_default(got, want):
-                                    bad = (f, pn, got, want)
-                if bad:
-                    f, pn, got, want = bad
-                    kind = "keyword" if isinstance(want, Tok) and want.kind == "K" else ("positional" if isinstance(want, Tok) else "default")
-                    r.fail(f"{cls}.{f}/{kind}-binding", (pm, arm), f"{hcls or ''}.{hfn}{shape}: IR field {f} is bound to {got!r} but Python binds parameter {pn} to {want!r}", detail={"shape": repr(shape), "arm": rx})
-                elif built_any:
-                    r.ok(f"{cls}{shape}")
-                else:
-                    r.ok(f"{cls}{shape} rejected")
+                pending.append((cls, hcls, hfn, shape, params, f2p, rx, arm, hm, fn))
+                tasks.append((cls, hcls, hfn, posable, shape.npos, tuple(sorted(shape.kws)), order))
+    from .. import bindeval
+    results = bindeval.evaluate(tasks)
+    for (cls, hcls, hfn, shape, params, f2p, rx, arm, hm, fn), (kind, val, desc, src) in zip(pending, results):
+        call_txt = src.strip().split("\n")[-1]
+        if kind == "error":
+            raise AnalysisError(f"parse() left the evaluable subset on `{call_txt}`: {val}")
+        if kind == "raise":
+            r.ok(f"{cls}{shape} rejected ({val})")
+            continue
+        if kind == "nodes":
+            r.fail(f"{cls}/call-shape-yields-one-node", (pm, arm), f"`{call_txt}` is accepted by {hcls or ''}.{hfn}'s signature and by parse() but yields {val} {cls} node(s): the call is dropped or duplicated", detail={"shape": repr(shape), "arm": rx})
+            continue
+        exp = expected(params, shape)
+        bad = None
+        for f, pn in f2p.items():
+            if pn not in exp or pn in HOST_ONLY or (cls, pn) in VALUE_LEVEL or f"{cls}.{f}" in VALUE_FIELDS:
+                continue
+            if f not in val:
+                continue
+            got = val[f]
+            want = exp[pn]
+            if isinstance(want, Tok):
+                if pn not in desc or not bindeval.matches(got, desc[pn]):
+                    bad = (f, pn, got, f"the argument written for {pn} (`{call_txt}`)", "keyword" if want.kind == "K" else "positional")
+            else:
+                # omitted parameter: the field carries the host default (or the arm's own spelling of it)
+                if isinstance(got, str) and any(bindeval.matches(got, d_) for d_ in desc.values() if d_[0] == "var"):
+                    bad = (f, pn, got, f"the default {want!r} (the parameter is omitted in `{call_txt}`)", "default")
+                elif want is NONE:
+                    if got is not None:
+                        bad = (f, pn, got, "None (omitted)", "default")
+                elif isinstance(want, Def) and want.value not in ("<nonliteral>", "<required>"):
+                    g_ = got
+                    try:
+                        if isinstance(g_, str) and not isinstance(want.value, str):
+                            g_ = float(g_.rstrip("fFuUlL")) if re.fullmatch(r"[-+]?[0-9.]+(e[-+]?\d+)?[fFuUlL]*", g_.strip()) else {"true": True, "false": False}.get(g_.strip(), g_)
+                    except ValueError:
+                        pass
+                    if not same_default(Def(g_), want):
+                        bad = (f, pn, got, f"the host default {want.value!r} (the parameter is omitted in `{call_txt}`)", "default")
+        if bad:
+            f, pn, got, want_txt, kind_ = bad
+            r.fail(f"{cls}.{f}/{kind_}-binding", (pm, arm), f"{hcls or ''}.{hfn}{shape}: IR field {f} holds {got!r}; Python binds parameter {pn} to {want_txt}", detail={"shape": repr(shape), "arm": rx, "script": src})
+        else:
+            r.ok(f"{cls}{shape}")
     cx.extra["call_shapes"] = shapes_total
-    cx.extra["fields_not_decided"] = sorted(set(undecided))
-    stray = sorted(set(undecided) - VALUE_FIELDS)
-    if stray:
-        raise AnalysisError(f"binding of IR field(s) {stray} is no longer decidable by the abstract evaluator (the arm left the recognised binding idiom)")
+    cx.extra["fields_decided_at_value_level"] = sorted(VALUE_FIELDS)
 
 
 
@@ -413,34 +421,11 @@ def run(cx):
     )
     bind_rule(cx)
 
-    # ---- C08-RESOLVER ------------------------------------------------------------------------
-    r = cx.rule("C08-RESOLVER", "an argument resolver returns its default only when the argument is absent (None/blank): never because of the supplied value (0, False, '')", floor=8)
-    for q in sorted(pm.funcs):
-        if not q.startswith("_parse_simple_lines._resolve_") and q != "_parse_simple_lines._require_string_literal":
-            continue
-        fn = pm.funcs[q]
-        ps = [a.arg for a in fn.args.args]
-        if not ps:
-            continue
-        src_p = ps[0]
-        dflt = ps[1] if len(ps) > 1 else None
-        an = ReturnDefault()
-        an.run_function(fn, frozenset({frozenset()}))
-        for ret, state in an.hits:
-            rv = norm(ret.value)
-            returns_default = (dflt is not None and rv == dflt) or rv == "None"
-            if not returns_default:
-                r.ok(None)
-                continue
-            for alt in state:
-                names = set()
-                for f in alt:
-                    if f[1] is True or f[1] is False:
-                        names |= set(f[2])
-                absent = any(f[0] in (f"{src_p} is None or not {src_p}.strip()", f"{src_p} is None", f"not {src_p}.strip()", f"not text or text == 'None'", "not text") and f[1] for f in alt)
-                value_dep = bool(names - {src_p, "text", dflt})
-                ok = absent and not value_dep
-                r.check(ok, f"{q.split('.')[-1]}/returns-default-only-when-absent", (pm, ret), f"`return {rv}` in {q.split('.')[-1]} is reachable when the argument was supplied (path condition {sorted(f[0] for f in alt)[:4]}): an explicit 0/False would be replaced by the default", sample=f"{q.split('.')[-1]}: return {rv} iff absent")
+    # ---- C08-RESOLVE-VALUES ------------------------------------------------------------------
+    # an argument resolver returns its default only when the argument is absent - never because of the supplied value (0,
+    # False, 0.0): decided by evaluating every resolver on such values (shared with C03/C04), not by the spelling of its guard
+    from . import c03
+    c03.rule_resolver_values(cx, "C08-RESOLVE-VALUES")
 
     # ---- C08-CORE ----------------------------------------------------------------------------
     import itertools
